@@ -763,7 +763,12 @@ impl<Backing : AsRef<[u32]> + AsMut<[u32]>> DrawTarget<Backing> {
         let mut pb = PathBuilder::new();
         if self.clip_stack.is_empty() {
             let color = solid.to_u32();
-            for pixel in self.buf.as_mut() {
+            // like every other drawing call, target the innermost layer if there is one
+            let dest = match self.layer_stack.last_mut() {
+                Some(layer) => &mut layer.buf[..],
+                None => self.buf.as_mut(),
+            };
+            for pixel in dest {
                 *pixel = color;
             }
         } else {
